@@ -151,4 +151,80 @@ Section Facts.
 
   Theorem load_no_crash evs : times_ok c evs = true -> load pf c evs <> Crash.
   Proof. intros H. unfold load. apply load_loop_no_crash. exact H. Qed.
+  (** * completeness: a file whose every row converts is loaded, whatever the chunk size *)
+  Lemma mapM_app_inv {A B} (f : A -> option B) a b z :
+    mapM f (a ++ b) = Some z -> exists x y, mapM f a = Some x /\ mapM f b = Some y /\ z = x ++ y.
+  Proof.
+    revert z; induction a as [|h a IH]; intros z H; cbn in *.
+    - exists [], z. auto.
+    - destruct (f h); [|discriminate]. destruct (mapM f (a ++ b)) eqn:E; [|discriminate].
+      inversion H; subst. destruct (IH _ eq_refl) as (x & y & -> & Hy & ->).
+      exists (b0 :: x), y. auto.
+  Qed.
+
+  Lemma cols_app_inv (g : Z * nat -> row -> option (list byte)) a b : forall cols zs,
+    mapM (fun p => mapM (g p) (a ++ b)) cols = Some zs ->
+    exists xs ys, mapM (fun p => mapM (g p) a) cols = Some xs /\ mapM (fun p => mapM (g p) b) cols = Some ys
+                  /\ zs = zip_app xs ys.
+  Proof.
+    induction cols as [|p cols IH]; intros zs H; cbn in *.
+    - inversion H; subst. exists [], []. auto.
+    - destruct (mapM (g p) (a ++ b)) as [z|] eqn:Ez; [|discriminate].
+      destruct (mapM (fun p0 => mapM (g p0) (a ++ b)) cols) as [zr|] eqn:Ezr; [|discriminate].
+      inversion H; subst.
+      destruct (mapM_app_inv _ _ _ _ Ez) as (x & y & -> & -> & ->).
+      destruct (IH _ eq_refl) as (xs & ys & -> & -> & ->).
+      exists (x :: xs), (y :: ys). auto.
+  Qed.
+
+  Lemma conv_spec_app_inv a b d :
+    conv_spec (a ++ b) = Some d -> exists x y, conv_spec a = Some x /\ conv_spec b = Some y /\ d = ds_app x y.
+  Proof.
+    unfold Csv.conv_spec, Csv.conv_cols. intros H.
+    destruct (mapM time_of (a ++ b)) as [t|] eqn:Et; [|discriminate].
+    destruct (mapM (fun p => mapM (cell_of pf (fst p) (snd p)) (a ++ b)) (used_cols c)) as [cs|] eqn:Ec; [|discriminate].
+    inversion H; subst.
+    destruct (mapM_app_inv _ _ _ _ Et) as (ta & tb & -> & -> & ->).
+    destruct (cols_app_inv (fun p => cell_of pf (fst p) (snd p)) a b _ _ Ec) as (ca & cb & -> & -> & ->).
+    eexists; eexists. split; [reflexivity|]. split; reflexivity.
+  Qed.
+
+  Lemma conv_chunk_of_spec rows d : wire_ok c = true -> conv_spec rows = Some d -> conv_chunk rows = Ok d.
+  Proof.
+    unfold Csv.conv_chunk, Csv.conv_spec. intros Hw. destruct (mapM time_of rows); [|discriminate].
+    destruct (conv_cols rows); [|discriminate]. rewrite Hw. intros H; inversion H; reflexivity.
+  Qed.
+
+  Lemma load_loop_complete : forall fuel evs acc done d,
+    1 <= c_chunk c -> wire_ok c = true -> no_err evs = true -> length evs < fuel ->
+    conv_spec done = Some acc -> conv_spec (done ++ rows_of evs) = Some d ->
+    load_loop fuel evs acc = Loaded d.
+  Proof.
+    induction fuel as [|fuel IH]; intros evs acc done d Hc Hw Hne Hf Hacc Hd; [lia|].
+    cbn [Csv.load_loop].
+    destruct (read_chunk evs (c_chunk c)) as [[rows rest] e] eqn:E.
+    destruct (read_chunk_rows _ _ _ _ _ E) as [Hrows _].
+    destruct (read_chunk_noerr _ _ _ _ _ E Hne) as (Hne' & Hend & Hnil & Hlt).
+    destruct rows as [|r rows].
+    - rewrite (Hnil eq_refl Hc) in Hd. cbn in Hd. rewrite app_nil_r in Hd. congruence.
+    - rewrite Hrows, app_assoc in Hd.
+      destruct (conv_spec_app_inv _ _ _ Hd) as (x & y & Hx & Hy & ->).
+      destruct (conv_spec_app_inv _ _ _ Hx) as (x1 & dd & Hx1 & Hdd & ->).
+      rewrite (conv_chunk_of_spec _ _ Hw Hdd).
+      assert (x1 = acc) by congruence. subst x1.
+      destruct e.
+      + rewrite (Hend eq_refl) in Hd. cbn [rows_of] in Hd. rewrite app_nil_r in Hd.
+        rewrite (conv_spec_app _ _ _ _ Hacc Hdd) in Hd. congruence.
+      + assert (length rest < length evs) by (apply Hlt; discriminate).
+        apply (IH rest (ds_app acc dd) (done ++ r :: rows)); try assumption; try lia.
+        all: try (apply conv_spec_app; assumption).
+  Qed.
+
+  Theorem load_complete evs d :
+    1 <= c_chunk c -> wire_ok c = true -> no_err evs = true -> conv_spec (rows_of evs) = Some d ->
+    load pf c evs = Loaded d.
+  Proof.
+    intros Hc Hw Hne Hd. unfold load.
+    apply (load_loop_complete _ _ _ [] _ Hc Hw Hne (Nat.lt_succ_diag_r _) conv_spec_nil Hd).
+  Qed.
 End Facts.
